@@ -350,6 +350,10 @@ def scenarios(ctx, thorough):
                 for oc in (False, True):
                     for _ in range(2 if thorough else 1):
                         scns.append({"driver": "generic", "transport": tr, "state": st, "closes": closes, "onclose": oc, "closebeh": "real", "readdelay_us": 200, "before": "", "after": ""})
+    # standard SSH transport: the device ended the session (logout) and kept the connection; Close closes the connection
+    for closes in (1, 2):
+        for oc in (False, True):
+            scns.append({"driver": "generic", "transport": "standard", "state": "session-ended", "closes": closes, "onclose": oc, "closebeh": "real", "readdelay_us": 200, "before": "", "after": ""})
     return scns, points, ps
 
 
